@@ -337,6 +337,12 @@ fn c10_parent(args: &Args) {
     let e2_only = inapplicable || e2_only_requested;
     let xn = args.u64("cross", match (e2_only, thorough) { (true, true) => 4000, (true, false) => 400, (false, true) => 400, (false, false) => 48 });
     let (xsum, xviol, xdisagree) = if xn > 0 { c10x::campaign(seed, xn, thorough, (workers as usize).min(12), e2_only) } else { Default::default() };
+    if let Some(f) = args.get("dump-digests") {
+        // for the determinism study: everything that identifies the histories of this run, independent of worker count
+        let m: BTreeMap<String, (Vec<String>, Vec<String>, u64)> = reports.iter().map(|r| (r.i.to_string(), (r.digests.clone(), r.orders.clone(), r.steps))).collect();
+        std::fs::write(f, serde_json::to_string(&m).unwrap()).unwrap();
+    }
+
     // Aggregate.
     let mut agg = Agg::default();
     for r in &reports {
@@ -382,11 +388,19 @@ fn c10_parent(args: &Args) {
             harness_error(&format!("violation did not reproduce from its replay file {} (replay exit {:?})", path.display(), confirm.status.code()));
         }
     }
-    for (j, v) in xviol.iter().take(3) {
+    let mut x_classes: BTreeSet<String> = BTreeSet::new();
+    for x in xviol.iter() {
+        if let Some(k) = known.iter().find(|k| k.property == "C10" && k.class == x.violation.class && x.violation.detail.contains(&k.detail_contains)) {
+            known_hits.insert(format!("KNOWN-FINDING: property=C10 {}", k.what));
+            continue;
+        }
         new_violations += 1;
-        let path = replays_dir.join(format!("C10-{seed}-x{j}-{}.json", v.class));
-        std::fs::write(&path, serde_json::to_string_pretty(&serde_json::json!({"property": "C10", "engine": "E2 cross-check (shipped binary, stand-in prover)", "seed": seed, "cross_case": j, "violation": v, "rerun": format!("vcheck c10 --seed {seed} --scenarios 0 --cross {}", j + 1)})).unwrap()).unwrap();
-        println!("violation (E2 cross-check) class={} case={j}\n  {}", v.class, v.detail);
+        if !x_classes.insert(x.violation.class.clone()) || x_classes.len() > 3 {
+            continue;
+        }
+        let path = replays_dir.join(format!("C10-{seed}-x{}-{}.json", x.cross_case, x.violation.class));
+        std::fs::write(&path, serde_json::to_string_pretty(x).unwrap()).unwrap();
+        println!("violation (E2 cross-check) class={} case={}\n  {}", x.violation.class, x.cross_case, x.violation.detail);
         println!("VIOLATION property=C10 replay={}", path.display());
     }
     for (at, why) in &aborted {
@@ -586,10 +600,30 @@ fn c10_replay(args: &Args) {
         None => harness_error("usage: vcheck c10-replay FILE [--log] [--quiet]"),
     };
     let text = std::fs::read_to_string(&path).unwrap_or_else(|e| harness_error(&format!("{path}: {e}")));
+    let quiet = args.get("quiet").is_some();
+    if let Ok(x) = serde_json::from_str::<c10x::XReplay>(&text) {
+        // a violation seen by the E2 engine: real processes; up to three attempts, since the timing inside a step is the OS's
+        for _ in 0..3 {
+            match c10x::replay(&x) {
+                Ok(vs) if vs.iter().any(|v| v.class == x.violation.class) => {
+                    if !quiet {
+                        println!("replayed {path} (E2: shipped binary, stand-in prover): class={} occurs again", x.violation.class);
+                        println!("VIOLATION property=C10 replay={path}");
+                    }
+                    std::process::exit(1);
+                }
+                Ok(_) => {}
+                Err(e) => harness_error(&format!("E2 replay: {e}")),
+            }
+        }
+        if !quiet {
+            println!("replayed {path}: recorded violation class {} did not occur in three attempts", x.violation.class);
+        }
+        std::process::exit(0);
+    }
     let r: Replay = serde_json::from_str(&text).unwrap_or_else(|e| harness_error(&format!("{path}: {e}")));
     let mut scratch = Scratch::new("replay");
     let (vs, digest, run) = c10::replay(&r, &mut scratch, args.get("log").is_some());
-    let quiet = args.get("quiet").is_some();
     if args.get("log").is_some() {
         for e in &run.result.sim.log {
             println!("{:6} {}", e.seq, e.what);
